@@ -480,19 +480,19 @@ theorem blockAt_render (b : DBlock) (hs : b.Shape) (hok : ∀ x ∈ b.lines, x.O
 theorem block_lines_head (b : DBlock) : ∃ x r, b.lines = x :: r ∧ x.depth = 0 := by
   cases b <;> exact ⟨_, _, rfl, rfl⟩
 
-theorem docAt_render : ∀ (doc : Doc) (l : Nat), (∀ b ∈ doc, b.Shape) → (∀ x ∈ doc.lines, x.Ok) →
-    l + lc doc.lines ≤ i32Max →
-    DocAt (doc.map DBlock.block) (rlText .tabs doc.lines ++ []) l [] (l + lc doc.lines)
-  | [], l, _, _, _ => by simpa [Doc.lines, rlText, lc] using DocAt.nil (s := []) (l := l)
-  | b :: doc, l, hs, hok, hb => by
+theorem docAt_render : ∀ (doc : Doc) (rest : Text) (l : Nat), (∀ b ∈ doc, b.Shape) → (∀ x ∈ doc.lines, x.Ok) →
+    countTabs rest < 1 → NoNl rest → l + lc doc.lines ≤ i32Max →
+    DocAt (doc.map DBlock.block) (rlText .tabs doc.lines ++ rest) l rest (l + lc doc.lines)
+  | [], rest, l, _, _, _, _, _ => by simpa [Doc.lines, rlText, lc] using DocAt.nil (s := rest) (l := l)
+  | b :: doc, rest, l, hs, hok, hr, hn, hb => by
     simp only [Doc.lines, List.flatMap_cons, lc_append, rlText_append, List.append_assoc, List.map_cons] at hb hok ⊢
-    have ih := docAt_render doc (l + lc b.lines) (fun x hx => hs x (List.mem_cons_of_mem _ hx))
-      (fun x hx => hok x (List.mem_append_right _ hx)) (by unfold Doc.lines; omega)
-    have hct : countTabs (rlText .tabs (doc.flatMap DBlock.lines) ++ []) < 1 := by
-      have := countTabs_flat DBlock.lines 0 block_lines_head doc [] (by simp [countTabs])
+    have ih := docAt_render doc rest (l + lc b.lines) (fun x hx => hs x (List.mem_cons_of_mem _ hx))
+      (fun x hx => hok x (List.mem_append_right _ hx)) hr hn (by unfold Doc.lines; omega)
+    have hct : countTabs (rlText .tabs (doc.flatMap DBlock.lines) ++ rest) < 1 := by
+      have := countTabs_flat DBlock.lines 0 block_lines_head doc rest (by omega)
       omega
     have h1 := blockAt_render b (hs b List.mem_cons_self) (fun x hx => hok x (List.mem_append_left _ hx))
-      (rlText .tabs (doc.flatMap DBlock.lines) ++ []) l hct (rlText_noNl _ _ (by intro r h; cases h)) (by omega)
+      (rlText .tabs (doc.flatMap DBlock.lines) ++ rest) l hct (rlText_noNl _ _ hn) (by omega)
     rw [show l + (lc b.lines + lc (doc.flatMap DBlock.lines)) = l + lc b.lines + lc (doc.flatMap DBlock.lines) by omega]
     exact DocAt.cons h1 ih
 
@@ -551,7 +551,7 @@ theorem runDoc_ok : ∀ (doc : Doc) (nets : List (Text × Network)) (ms : List M
     meaning -/
 theorem build_renderDoc (doc : Doc) (h : doc.Ok) : build (renderDoc .tabs doc) = .ok doc.sim := by
   obtain ⟨hok, hs, hnd, hb⟩ := h
-  have hd := docAt_render doc 1 hs hok hb
+  have hd := docAt_render doc [] 1 hs hok (by simp [countTabs]) (by intro r h; cases h) hb
   simp only [List.append_nil] at hd
   unfold renderDoc
   rw [build_of hd, runDoc_ok doc [] [] (by simpa [Doc.sim] using hnd)]
